@@ -84,6 +84,7 @@ CATALOGUE = dict(
         [[q(1, 4), q(-1, 2)], [q(2), q(3, 2)]],       # 6  two variables
         [[q(2), q(-3)], [q(1, 2), q(1)], [q(-1), q(4)]],   # 7  three variables
         [[q(2), q(3), q(6)], [q(1), q(-1, 2), q(2)]],      # 8  two variables of size 3; |x| = 7
+        [[q(0), q(2)], [q(1), q(-1)]],                # 9  an entry exactly 0 (x ** n is smooth there, n a positive integer)
     ],
     FCat=[fv(2, t="int"), fv(-1, 2), fv(3), fv(-1), fv(1, 2)],
     ACat=[[q(2), q(-1)], [q(1), q(-2), q(1, 2)], [q(3), q(2), q(1, 2)], [q(2), q(1, 2)]],   # 3, 4: positive (bases of **)
@@ -109,7 +110,8 @@ def plans(quick):
               cfg("A-pow", [2], F=[1], M=[2], bin={"pow", "mul"}, un={"matmul"}),
               cfg("B-alg", [3], F=[4], A=[3], M=[3], S=[5, 6], bin=ALLBIN, un=ALLUN, law={"mul"}),
               cfg("F-fun", [4, 5], F=[1], M=[5], Fn=allfn, bin={"mul"}, un={"fn", "matmul"}),
-              cfg("M-max", [1], F=[1], A=[1], M=[1, 2], bin={"max"}, un={"matmul", "neg"})]
+              cfg("M-max", [1], F=[1], A=[1], M=[1, 2], bin={"max"}, un={"matmul", "neg"}),
+              cfg("Z-pow", [9], F=[1, 3], M=[1], bin={"pow", "mul", "add"}, un={"matmul"})]
         return ex, []
     everyfn = range(1, len(CATALOGUE["FnCat"]) + 1)
     A = cfg("A-alg", [1], F=[2], A=[4], M=[1, 2], S=[1, 2, 3], bin=ALLBIN, un=ALLUN, law={"mul"})
@@ -120,6 +122,7 @@ def plans(quick):
           cfg("B-alg", [3], F=[4, 1], A=[2, 3], M=[3, 4], S=[5, 6, 7, 8], bin=ALLBIN, un=ALLUN, law={"mul"}),
           cfg("F-fun1", [4, 5], F=[1, 2], M=[5], Fn=everyfn, bin={"add", "mul", "div", "pow"}, un={"fn", "matmul", "neg"}),
           F2, Mx,
+          cfg("Z-pow", [9], F=[1, 3], M=[1, 5], bin={"pow", "mul", "add", "sub"}, un={"matmul", "neg"}),
           cfg("C-alg", [7], F=[1], M=[1], S=[1], bin={"sub", "mul", "div"}, un=ALLUN, law={"mul"}),
           cfg("D-alg", [8], F=[1], A=[2], M=[4], S=[8], Fn=[30, 22, 19, 1], bin={"mul", "div", "sub"},
               un={"neg", "matmul", "slice", "fn"}, law={"mul"})]
